@@ -451,36 +451,54 @@ def r15_3_defaults(ctx, rule: str = 'R15.3') -> List[Ob]:
     obs: List[Ob] = []
     f = repo.func('pyspike.generic', 'resolve_keywords')
     fn = _fn(f)
-    found = {}
     kwname = f.node.args.kwarg.arg if f.node.args.kwarg else 'kwargs'
-    for n in ast.walk(f.node):
-        # the same default spelled with dict.get: `X = kwargs.get('X', default)`
-        if isinstance(n, ast.Assign) and len(n.targets) == 1 and isinstance(n.targets[0], ast.Name) and isinstance(n.value, ast.Call) \
-                and isinstance(n.value.func, ast.Attribute) and n.value.func.attr == 'get' and isinstance(n.value.func.value, ast.Name) \
-                and n.value.func.value.id == kwname and len(n.value.args) == 2 and isinstance(n.value.args[0], ast.Constant) \
-                and n.value.args[0].value == n.targets[0].id and isinstance(n.value.args[1], ast.Constant):
-            found[n.targets[0].id] = (True, n.value.args[1].value, n)
-    for n in f.node.body:
-        if isinstance(n, ast.If) and isinstance(n.test, ast.Compare) and isinstance(n.test.left, ast.Constant) and \
-                isinstance(n.test.ops[0], ast.In) and n.orelse:
-            key = n.test.left.value
-            tb, eb = n.body[0], n.orelse[0]
-            ok_true = isinstance(tb, ast.Assign) and ast.unparse(tb.value) == f"{ast.unparse(n.test.comparators[0])}['{key}']" and \
-                ast.unparse(tb.targets[0]) == key
-            dv = eb.value.value if isinstance(eb, ast.Assign) and isinstance(eb.value, ast.Constant) and ast.unparse(eb.targets[0]) == key else 'n/a'
-            found[key] = (ok_true, dv, n)
-    for key, want in (('MRTS', 0.0), ('RI', False)):
-        t = f"resolve_keywords: `{key}` is taken from the keywords when present and defaults to {want!r}"
-        if key in found and found[key][0] and found[key][1] == want and type(found[key][1]) in (type(want), float, int):
-            obs.append(ok(rule, t, f.loc(found[key][2]), construct=f"{fn}::{key}"))
+    # decided on the values returned along every path: component k of the result is kwargs[K] where K is present and
+    # the default where it is absent (or `kwargs.get(K, default)`, which is the same thing in one call)
+    from .rules_classes import MethodPaths
+    from .compare import Inconclusive as _Inc
+    env = Env()
+
+    def cexpr(src):
+        return C.canon_expr(ast.parse(src, mode='eval').body, env)
+
+    def ccond(src):
+        return C.canon_cond(ast.parse(src, mode='eval').body, env)
+    try:
+        mp = MethodPaths(f).run()
+        results = [r for r in mp.results if not any(C.mk_not(c) in set(r[1]) for c in r[1])]
+    except (_Inc, C.CanonError) as e:
+        obs.append(inconclusive(rule, "resolve_keywords: the returned pair can be evaluated along every path", f.loc(), str(e), construct=fn))
+        results = None
+    if results is not None:
+        comps = []
+        for v, conds, _env, _stores, node in results:
+            sa = C.single_atom(v) if v is not None and C.is_poly(v) else None
+            comps.append((sa[1] if sa is not None and sa[0] == 'tuple' and len(sa[1]) == 2 else None, set(conds), node))
+        t = "resolve_keywords: returns (MRTS, RI) in that order"
+        if results and all(c is not None for c, _, _ in comps):
+            obs.append(ok(rule, t, f.loc(comps[0][2]), construct=f"{fn}::return", detail=f"{len(comps)} paths"))
         else:
-            obs.append(violation(rule, t, f.loc(), key=f"{fn}::default::{key}", detail=str(found.get(key, 'missing')[:2] if key in found else 'missing')))
-    rets = [n for n in f.node.body if isinstance(n, ast.Return)]
-    t = "resolve_keywords: returns (MRTS, RI) in that order"
-    if rets and ast.unparse(rets[-1].value) in ('(MRTS, RI)', 'MRTS, RI'):
-        obs.append(ok(rule, t, f.loc(rets[-1]), construct=f"{fn}::return"))
-    else:
-        obs.append(violation(rule, t, f.loc(), key=f"{fn}::return-order"))
+            obs.append(violation(rule, t, f.loc(), key=f"{fn}::return-order", detail="a path does not return a pair"))
+        for k, (key, want, alts) in enumerate((('MRTS', 0.0, ('0.0', '0')), ('RI', False, ('False', '0')))):
+            t = f"resolve_keywords: `{key}` is taken from the keywords when present and defaults to {want!r}"
+            present, absent = ccond(f"'{key}' in {kwname}"), ccond(f"'{key}' not in {kwname}")
+            taken = cexpr(f"{kwname}['{key}']")
+            defaults = {cexpr(a_) for a_ in alts}
+            gets = {cexpr(f"{kwname}.get('{key}', {a_})") for a_ in alts}
+            bad = None
+            for comp, conds, node in comps:
+                if comp is None:
+                    bad = 'no pair returned'
+                    break
+                c = comp[k]
+                if c in gets or (c == taken and present in conds) or (c in defaults and absent in conds):
+                    continue
+                bad = f"component {k + 1} is {C.show(c)} under [{', '.join(C.show(x) for x in conds)}]"
+                break
+            if bad is None and comps:
+                obs.append(ok(rule, t, f.loc(), construct=f"{fn}::{key}"))
+            else:
+                obs.append(violation(rule, t, f.loc(), key=f"{fn}::default::{key}", detail=bad or 'no path'))
     # kernel defaults MRTS = 0
     for k in repo.all_functions():
         if not k.module.startswith('pyspike.cython'):
@@ -561,37 +579,75 @@ def r17_filter(ctx, rule1: str = 'R17.1', rule2: str = 'R17.2') -> List[Ob]:
         obs.append(violation(rule2, t, f.loc(kept_mask), key=f"{fn}::keep-test", detail=f"found {C.show(ckm)}; expected {C.show(want)}"))
     # accumulation: zeros init, loop over all N trains skipping exactly i == j, adding the per-spike indicator
     cname = cvar.id if isinstance(cvar, ast.Name) else None
-    outer = next((n for n in ast.walk(f.node) if isinstance(n, ast.For) and isinstance(n.iter, ast.Call) and
-                  isinstance(n.iter.func, ast.Name) and n.iter.func.id == 'enumerate'), None)
+
+    def all_of_trains(lp: ast.For):
+        """A loop that visits every train of the list once, in order: (index name or None, spellings of the element)."""
+        it, tg = lp.iter, lp.target
+        rng_all = lambda e: isinstance(e, ast.Call) and ast.unparse(e) in (f"range({nname})", f"range(len({trains}))")
+        if isinstance(it, ast.Call) and isinstance(it.func, ast.Name) and it.func.id == 'enumerate' and len(it.args) == 1 \
+                and ast.unparse(it.args[0]) == trains and isinstance(tg, ast.Tuple) and len(tg.elts) == 2 \
+                and all(isinstance(e, ast.Name) for e in tg.elts):
+            return tg.elts[0].id, {tg.elts[1].id, f"{trains}[{tg.elts[0].id}]"}
+        if isinstance(it, ast.Call) and isinstance(it.func, ast.Name) and it.func.id == 'zip' and len(it.args) == 2 \
+                and rng_all(it.args[0]) and ast.unparse(it.args[1]) == trains and isinstance(tg, ast.Tuple) \
+                and len(tg.elts) == 2 and all(isinstance(e, ast.Name) for e in tg.elts):
+            return tg.elts[0].id, {tg.elts[1].id, f"{trains}[{tg.elts[0].id}]"}
+        if rng_all(it) and isinstance(tg, ast.Name):
+            return tg.id, {f"{trains}[{tg.id}]"}
+        if isinstance(it, ast.Name) and it.id == trains and isinstance(tg, ast.Name):
+            return None, {tg.id}
+        return None
+
+    def with_aliases(lp: ast.For, elems: Set[str]) -> Set[str]:
+        out = set(elems)
+        for s_ in lp.body:
+            if isinstance(s_, ast.Assign) and len(s_.targets) == 1 and isinstance(s_.targets[0], ast.Name) \
+                    and ast.unparse(s_.value) in out:
+                out.add(s_.targets[0].id)
+        return out
+
+    outer = None
+    for n in ast.walk(f.node):
+        if isinstance(n, ast.For) and all_of_trains(n) is not None and cname and \
+                any(isinstance(s_, ast.Assign) and isinstance(s_.targets[0], ast.Name) and s_.targets[0].id == cname for s_ in n.body):
+            outer = n
+            break
     t = "filter_by_spike_sync: the count runs over all N trains, skips exactly the train itself, and adds the per-spike coincidence indicator of (this train, other train)"
     good = False
     detail = ''
     if outer is not None and cname:
-        i, st = [e.id for e in outer.target.elts]
+        i, st_names = all_of_trains(outer)
+        st_names = with_aliases(outer, st_names)
         init = [s for s in outer.body if isinstance(s, ast.Assign) and isinstance(s.targets[0], ast.Name) and s.targets[0].id == cname]
         inner = [s for s in outer.body if isinstance(s, ast.For)]
         if init and inner:
             zi = isinstance(init[0].value, ast.Call) and ast.unparse(init[0].value.func) in ('np.zeros_like', 'np.zeros')
             lp = inner[0]
-            rng = isinstance(lp.iter, ast.Call) and ast.unparse(lp.iter) == f"range({nname})"
-            j = lp.target.id if isinstance(lp.target, ast.Name) else None
+            bind = all_of_trains(lp)
+            rng = bind is not None and bind[0] is not None and i is not None
+            j, other_names = bind if bind is not None else (None, set())
+            other_names = with_aliases(lp, other_names)
             skip = [s for s in lp.body if isinstance(s, ast.If) and len(s.body) == 1 and isinstance(s.body[0], ast.Continue)]
-            skip_ok = len(skip) == 1 and C.canon_cond(skip[0].test, env) == C.mk_cmp('eq', C.atom(('n', i)), C.atom(('n', j)))
+            skip_ok = rng and len(skip) == 1 and C.canon_cond(skip[0].test, env) == C.mk_cmp('eq', C.atom(('n', i)), C.atom(('n', j)))
             acc_scope = lp.body
-            if not skip:
+            if rng and not skip:
                 # the same skip spelled as a guard: `if i != j: <accumulate>` (no else)
                 guards = [s for s in lp.body if isinstance(s, ast.If) and not s.orelse]
-                if len(guards) == 1 and len([s for s in lp.body if not isinstance(s, ast.Pass)]) == 1 and \
+                rest = [s for s in lp.body if not isinstance(s, ast.Pass) and s not in guards and
+                        not (isinstance(s, ast.Assign) and isinstance(s.targets[0], ast.Name) and s.targets[0].id in other_names)]
+                if len(guards) == 1 and not rest and \
                         C.canon_cond(guards[0].test, env) == C.mk_cmp('ne', C.atom(('n', i)), C.atom(('n', j))):
                     skip_ok = True
                     acc_scope = guards[0].body
+                    other_names = other_names | {s_.targets[0].id for s_ in acc_scope if isinstance(s_, ast.Assign)
+                                                 and isinstance(s_.targets[0], ast.Name) and ast.unparse(s_.value) in other_names}
             acc = [s for s in acc_scope if (isinstance(s, ast.AugAssign) and isinstance(s.target, ast.Name) and s.target.id == cname and isinstance(s.op, ast.Add))]
             acc_ok = False
             if len(acc) == 1 and isinstance(acc[0].value, ast.Call):
                 a = [ast.unparse(x) for x in acc[0].value.args]
-                acc_ok = len(a) >= 2 and a[0] == f"{st}.spikes" and a[1] == f"{trains}[{j}].spikes"
+                acc_ok = len(a) >= 2 and a[0] in {f"{x}.spikes" for x in st_names} and a[1] in {f"{x}.spikes" for x in other_names}
             good = zi and rng and skip_ok and acc_ok
-            detail = f"zeros init={zi} range(N)={rng} skip i==j={skip_ok} accumulate(st, other)={acc_ok}"
+            detail = f"zeros init={zi} both loops visit all N trains by index={rng} skip i==j={skip_ok} accumulate(st, other)={acc_ok}"
     if good:
         obs.append(ok(rule2, t, f.loc(outer), construct=f"{fn}::accumulate"))
     else:
@@ -599,7 +655,14 @@ def r17_filter(ctx, rule1: str = 'R17.1', rule2: str = 'R17.2') -> List[Ob]:
     # outputs on the original edges
     t = "filter_by_spike_sync: kept / removed spikes are wrapped in new SpikeTrain objects on the train's own [t_start, t_end]"
     ctor = [n for n in ast.walk(f.node) if isinstance(n, ast.Call) and isinstance(n.func, ast.Name) and n.func.id == 'SpikeTrain']
-    good = len(ctor) == 2 and all(len(c.args) == 2 and ast.unparse(c.args[1]).replace(' ', '') in ('[st.t_start,st.t_end]',) for c in ctor)
+    owners = with_aliases(outer, all_of_trains(outer)[1]) if outer is not None else {'st'}
+    edge_forms = {f"[{x}.t_start,{x}.t_end]" for x in owners} | {f"({x}.t_start,{x}.t_end)" for x in owners}
+    if outer is not None:
+        edge_forms |= {s_.targets[0].id for s_ in outer.body if isinstance(s_, ast.Assign) and len(s_.targets) == 1
+                       and isinstance(s_.targets[0], ast.Name) and ast.unparse(s_.value).replace(' ', '') in edge_forms
+                       and sum(1 for n in ast.walk(f.node) if isinstance(n, ast.Name) and n.id == s_.targets[0].id
+                               and isinstance(n.ctx, ast.Store)) == 1}
+    good = len(ctor) == 2 and all(len(c.args) == 2 and ast.unparse(c.args[1]).replace(' ', '') in edge_forms for c in ctor)
     if good:
         obs.append(ok(rule1, t, f.loc(ctor[0]), construct=f"{fn}::edges"))
     else:
@@ -839,6 +902,18 @@ def r13_3_reconcile_shape(ctx, rule: str = 'R13.3') -> List[Ob]:
     # (c) clipping: keeps t with  start - eps < t < end + eps
     t = "reconcile_spike_trains: spikes are kept exactly when they lie inside the common interval (both bounds, with the small slack)"
     good = False
+
+    def two_sided(conj, var) -> bool:
+        """exactly two strict tests, one bounding `var` from below and one from above"""
+        lo_ok = hi_ok = False
+        for x in conj:
+            if x[0] == 'cmp' and x[1] == 'lt':
+                co = [cc for m_, cc in x[2][1] if m_ == (var if isinstance(var, tuple) else ('n', var),)]
+                if co and co[0] < 0:
+                    lo_ok = True      # bound - t < 0  => t > bound
+                if co and co[0] > 0:
+                    hi_ok = True      # t - bound < 0
+        return lo_ok and hi_ok and len(conj) == 2
     for n in ast.walk(src):
         if isinstance(n, ast.ListComp) and n.generators and n.generators[0].ifs and isinstance(n.elt, ast.Name):
             try:
@@ -846,33 +921,70 @@ def r13_3_reconcile_shape(ctx, rule: str = 'R13.3') -> List[Ob]:
             except C.CanonError:
                 continue
             conj = c[1] if c[0] == 'and' else [c]
-            lower = any(x[0] == 'cmp' and x[1] == 'lt' for x in conj)
-            names = set()
-            for x in conj:
-                names |= C.names_of(x[2]) if x[0] == 'cmp' else set()
-            var = n.elt.id
-            lo_ok = hi_ok = False
-            for x in conj:
-                if x[0] == 'cmp' and x[1] == 'lt':
-                    co = [cc for m_, cc in x[2][1] if m_ == (('n', var),)]
-                    if co and co[0] < 0:
-                        lo_ok = True      # bound - t < 0  => t > bound
-                    if co and co[0] > 0:
-                        hi_ok = True      # t - bound < 0
-            good = lo_ok and hi_ok and len(conj) == 2
+            good = two_sided(conj, n.elt.id)
+        elif isinstance(n, ast.Subscript) and isinstance(n.value, (ast.Name, ast.Attribute)) and isinstance(n.ctx, ast.Load):
+            # the same selection on an array: `x[(lo < x) & (x < hi)]` / `x[np.logical_and(lo < x, x < hi)]`
+            m = n.slice
+            parts = None
+            if isinstance(m, ast.BinOp) and isinstance(m.op, ast.BitAnd):
+                parts = [m.left, m.right]
+            elif isinstance(m, ast.Call) and C.dotted(m.func) == 'np.logical_and' and len(m.args) == 2 and not m.keywords:
+                parts = list(m.args)
+            if parts and all(isinstance(p_, ast.Compare) and len(p_.ops) == 1 for p_ in parts):
+                try:
+                    conj = [C.canon_cond(p_, env) for p_ in parts]
+                    base_atom = C.single_atom(C.canon_expr(n.value, env))
+                except C.CanonError:
+                    continue
+                good = base_atom is not None and two_sided(conj, base_atom)
     obs.append(ok(rule, t, f.loc(), construct=f"{fn}::clip") if good else violation(rule, t, f.loc(), key=f"{fn}::clipping"))
     # (d) result: new SpikeTrain objects on the common interval
     t = "reconcile_spike_trains: returns new SpikeTrain objects, all on the common interval"
-    rets = [n for n in ast.walk(src) if isinstance(n, ast.Return)]
+    inner_nodes = {id(x) for d in ast.walk(src) if isinstance(d, (ast.FunctionDef, ast.Lambda)) and d is not src for x in ast.walk(d)}
+    rets = [n for n in ast.walk(src) if isinstance(n, ast.Return) and id(n) not in inner_nodes]
     good = len(rets) == 1 and isinstance(rets[0].value, ast.ListComp) and isinstance(rets[0].value.elt, ast.Call) and \
         getattr(rets[0].value.elt.func, 'id', '') == 'SpikeTrain' and not rets[0].value.generators[0].ifs
     obs.append(ok(rule, t, f.loc(), construct=f"{fn}::result") if good else violation(rule, t, f.loc(), key=f"{fn}::result"))
     g = repo.func('pyspike.spikes', 'reconcile_spike_trains_bi')
     t = "reconcile_spike_trains_bi: reconciles the pair through reconcile_spike_trains and returns both results in order"
-    body = ast.unparse(g.node)
     rets = [n for n in ast.walk(g.node) if isinstance(n, ast.Return)]
-    good = 'reconcile_spike_trains(' in body and len(rets) == 1 and isinstance(rets[0].value, ast.Tuple) and \
-        [ast.unparse(e)[-3:] for e in rets[0].value.elts] == ['[0]', '[1]']
+    gp_ = [a_.arg for a_ in g.node.args.args]
+    once: Dict[str, ast.AST] = {}
+    cnt: Dict[str, int] = {}
+    for n in ast.walk(g.node):
+        if isinstance(n, ast.Name) and isinstance(n.ctx, ast.Store):
+            cnt[n.id] = cnt.get(n.id, 0) + 1
+    for n in ast.walk(g.node):
+        if isinstance(n, ast.Assign) and len(n.targets) == 1 and isinstance(n.targets[0], ast.Name) and cnt.get(n.targets[0].id) == 1:
+            once[n.targets[0].id] = n.value
+
+    def res(e, depth=0):
+        while isinstance(e, ast.Name) and e.id in once and depth < 5:
+            e, depth = once[e.id], depth + 1
+        return e
+
+    def is_call(e) -> bool:
+        """reconcile_spike_trains([first parameter, second parameter])"""
+        e = res(e)
+        if not (isinstance(e, ast.Call) and isinstance(e.func, ast.Name) and e.func.id == 'reconcile_spike_trains' and len(e.args) == 1
+                and not e.keywords):
+            return False
+        a_ = res(e.args[0])
+        return isinstance(a_, (ast.List, ast.Tuple)) and [ast.unparse(x) for x in a_.elts] == gp_[:2] and len(gp_) == 2
+    good = False
+    if len(rets) == 1 and isinstance(rets[0].value, ast.Tuple) and len(rets[0].value.elts) == 2:
+        e0, e1 = rets[0].value.elts
+        if all(isinstance(e, ast.Subscript) and isinstance(e.slice, ast.Constant) for e in (e0, e1)):
+            good = (e0.slice.value, e1.slice.value) == (0, 1) and ast.unparse(e0.value) == ast.unparse(e1.value) and is_call(e0.value)
+        elif isinstance(e0, ast.Name) and isinstance(e1, ast.Name):
+            # `a, b = reconcile_spike_trains([..]); return a, b`
+            for n in ast.walk(g.node):
+                if isinstance(n, ast.Assign) and len(n.targets) == 1 and isinstance(n.targets[0], ast.Tuple) \
+                        and [ast.unparse(x) for x in n.targets[0].elts] == [e0.id, e1.id] and is_call(n.value) \
+                        and cnt.get(e0.id) == 1 and cnt.get(e1.id) == 1 and e0.id != e1.id:
+                    good = True
+    elif len(rets) == 1 and is_call(rets[0].value):
+        good = True       # the two-element list itself
     obs.append(ok(rule, t, g.loc(), construct=f"{_fn(g)}::pair") if good else violation(rule, t, g.loc(), key=f"{_fn(g)}::pair"))
     return obs
 
@@ -887,59 +999,9 @@ def r06_aggregation(ctx, rule_dc: str = 'R06.2', rule_norm: str = 'R06.3') -> Li
     env = Env()
     gp = repo.func('pyspike.generic', '_generic_profile_multi')
     fn = _fn(gp)
-    # divide-and-conquer call sites
-    dc_calls = [n for n in ast.walk(gp.node) if isinstance(n, ast.Call) and isinstance(n.func, ast.Name) and n.func.id == 'divide_and_conquer']
-    for c in dc_calls:
-        t = "_generic_profile_multi: divide-and-conquer splits its pair list into two complementary slices `X[:e]`, `X[e:]`"
-        good = False
-        if len(c.args) == 2 and all(isinstance(a, ast.Subscript) and isinstance(a.slice, ast.Slice) for a in c.args):
-            a, b = c.args
-            same = ast.unparse(a.value) == ast.unparse(b.value)
-            try:
-                good = same and a.slice.lower is None and b.slice.upper is None and a.slice.upper is not None and b.slice.lower is not None and \
-                    C.canon_expr(a.slice.upper, env) == C.canon_expr(b.slice.lower, env) and a.slice.step is None and b.slice.step is None
-            except C.CanonError:
-                good = False
-        if good:
-            obs.append(ok(rule_dc, t, gp.loc(c), construct=f"{fn}::dc::{c.lineno - gp.node.lineno}"))
-        else:
-            obs.append(violation(rule_dc, t, gp.loc(c), key=f"{fn}::dc-slices::{ast.unparse(c)[:80]}", detail=ast.unparse(c)))
-    if len(dc_calls) < 3:
-        obs.append(inconclusive(rule_dc, "_generic_profile_multi: three divide-and-conquer call sites", gp.loc(), f"{len(dc_calls)}", construct=fn))
-    # leaves: pair function on (trains[P[0][0]], trains[P[0][1]], **kwargs)
-    leaves = [n for n in ast.walk(gp.node) if isinstance(n, ast.Call) and isinstance(n.func, ast.Name) and n.func.id == gp.node.args.args[1].arg]
-    tr = gp.node.args.args[0].arg
-    for c in leaves:
-        t = "_generic_profile_multi: a single pair is evaluated as pair_function(trains[p[0][0]], trains[p[0][1]], **kwargs)"
-        a = [ast.unparse(x) for x in c.args]
-        good = len(a) == 2 and a[0].startswith(f"{tr}[") and a[0].endswith('[0][0]]') and a[1].endswith('[0][1]]') and \
-            a[0][:-7] == a[1][:-7] and any(k.arg is None for k in c.keywords)
-        if good:
-            obs.append(ok(rule_dc, t, gp.loc(c), construct=f"{fn}::leaf::{c.lineno - gp.node.lineno}"))
-        else:
-            obs.append(violation(rule_dc, t, gp.loc(c), key=f"{fn}::leaf::{ast.unparse(c)[:80]}", detail=ast.unparse(c)))
-    # combination: a.add(b); return a
-    dcf = repo.func('pyspike.generic', '_generic_profile_multi.divide_and_conquer') if repo.has_func('pyspike.generic', '_generic_profile_multi.divide_and_conquer') else None
-    if dcf is not None:
-        adds = [n for n in dcf.node.body if isinstance(n, ast.Expr) and isinstance(n.value, ast.Call) and
-                isinstance(n.value.func, ast.Attribute) and n.value.func.attr == 'add']
-        rets = [n for n in dcf.node.body if isinstance(n, ast.Return)]
-        t = "divide_and_conquer: the two halves are combined by `a.add(b)` and `a` is returned"
-        good = len(adds) == 1 and len(rets) == 1 and isinstance(rets[0].value, ast.Name) and \
-            ast.unparse(adds[0].value.func.value) == rets[0].value.id and len(adds[0].value.args) == 1 and \
-            ast.unparse(adds[0].value.args[0]) != rets[0].value.id
-        obs.append(ok(rule_dc, t, dcf.loc(), construct=f"{_fn(dcf)}::combine") if good else violation(rule_dc, t, dcf.loc(), key=f"{_fn(dcf)}::combine"))
-    # returned (profile, number of pairs)
-    rets = [n for n in gp.node.body if isinstance(n, ast.Return)]
-    t = "_generic_profile_multi: returns the summed profile together with the number of pairs"
-    good = False
-    if rets and isinstance(rets[-1].value, ast.Tuple) and len(rets[-1].value.elts) == 2 and isinstance(rets[-1].value.elts[1], ast.Name):
-        L = rets[-1].value.elts[1].id
-        for n in ast.walk(gp.node):
-            if isinstance(n, ast.Assign) and isinstance(n.targets[0], ast.Name) and n.targets[0].id == L and \
-                    isinstance(n.value, ast.Call) and ast.unparse(n.value.func) == 'len':
-                good = 'pairs' in ast.unparse(n.value.args[0])
-    obs.append(ok(rule_norm, t, gp.loc(), construct=f"{fn}::count") if good else violation(rule_norm, t, gp.loc(), key=f"{fn}::pair-count"))
+    # the sum over all pairs (recursive helper, leaves, combination, count): decided on values, see rules_reducer
+    from .rules_reducer import r_pair_sum
+    obs.extend(r_pair_sum(ctx, rule_dc, rule_norm))
     # normalisation in the multivariate profile wrappers
     for f in wm.funcs:
         calls = [n for n in ast.walk(f.node) if isinstance(n, ast.Call) and isinstance(n.func, ast.Name) and n.func.id == '_generic_profile_multi']
